@@ -100,6 +100,16 @@ Definition C02_spectral_full_statement : Prop :=
 Theorem C02_spectral_labels_partial : C02_spectral_full_statement.
 Proof. exact spectral_labels_partial. Qed.
 
+(* ---- end to end on the EXTRACTED run functions (the ones the driver executes): returned q = definitional Q of the
+   returned labels, as a Leibniz equality of the reduced fractions, for every input and every recorded move list ---- *)
+Theorem C02_run_finetune_dir_consistent : forall rows g ci moves,
+  let r := run_finetune_dir rows g ci moves in ret_q r = ret_qdef r.
+Proof. exact run_finetune_dir_consistent. Qed.
+Theorem C02_run_finetune_und_consistent : forall rows g ci moves,
+  sym_on (length rows) (of_rows 0 rows) ->
+  let r := run_finetune_und rows g ci moves in ret_q r = ret_qdef r.
+Proof. exact run_finetune_und_consistent. Qed.
+
 (* ---- modularity_louvain_dir as it is (W never replaced by W1): the statement FAILS ---- *)
 Theorem C02_louvain_dir_q_refuted : ~ louvain_dir_q_full_statement.
 Proof. exact louvain_dir_q_refuted. Qed.
@@ -135,4 +145,6 @@ Print Assumptions C02_given_partition_returns_Q_und.
 Print Assumptions C02_given_partition_returns_Q_dir.
 Print Assumptions C02_given_partition_returns_Q_sign.
 Print Assumptions C02_spectral_labels_partial.
+Print Assumptions C02_run_finetune_dir_consistent.
+Print Assumptions C02_run_finetune_und_consistent.
 Print Assumptions C02_louvain_dir_q_refuted.
